@@ -272,6 +272,28 @@ class NPX:
         f = _np.frompyfunc(lambda x, y: x if (x <= y) else y, 2, 1)
         return f(a_, b_)
 
+    def nextafter(self, x, y):
+        """Q: some value strictly beyond x in the direction of y (x + fresh positive step,
+        a superset of the double successor); FP: the exact IEEE successor/predecessor."""
+        from .dom import FP, Q, fresh
+        from . import ctx as _c
+        import z3
+        if isinstance(x, Q) or isinstance(y, Q):
+            up = bool(Q.of(y) > x) if is_sym(y) else (float(y) > 0 or float(y) == math.inf)
+            d = fresh("ulp_", "pos")
+            return x + d if up else x - d
+        if isinstance(x, FP):
+            up = float(y) == math.inf if not is_sym(y) else bool(y > x)
+            r = FP.var(_c.cur().fresh_name("nextafter_"))
+            bx, br = z3.fpToIEEEBV(x.z), z3.fpToIEEEBV(r.z)
+            cx = _c.cur()
+            pos = z3.Not(z3.fpIsNegative(x.z))
+            step = z3.If(pos == z3.BoolVal(up), bx + 1, bx - 1)
+            cx.assume(z3.Implies(z3.Not(z3.fpIsZero(x.z)), br == step))
+            cx.assume(z3.Implies(z3.fpIsZero(x.z), br == z3.BitVecVal(1 if up else (1 << 63) + 1, 64)))
+            return r
+        return _np.nextafter(x, y)
+
     def power(self, a, b):
         a_ = _np.asarray(a)
         if a_.dtype != object and not is_sym(b):
